@@ -42,7 +42,7 @@ def kread (kbuf : List Byte) (peerShut : Bool) (cap : Nat) (o : Option Outcome) 
   | some (.ok k) => full k
   | some .eagain => (.eagain, kbuf)
   | some .eintr => (.eagain, kbuf)        -- not reachable through `skipEintr`
-  | some (.err e) => if e = 11 ∨ e = 4 then (.eagain, kbuf) else (.err e, kbuf)
+  | some (.err e) => if e = 11 ∨ e = 4 ∨ e = 0 then (.eagain, kbuf) else (.err e, kbuf)   -- `err` = errno other than EAGAIN/EINTR
 
 /-- `do nread = read(...) while (nread < 0 && errno == EINTR)` (stream.c:1063-1066, 1078-1081):
     number of calls made, the deciding outcome, the outcomes left -/
@@ -78,6 +78,7 @@ def UV_EALREADY : Int := -114
 def UV_ENOTCONN : Int := -107
 
 structure St where
+  ipc : Bool := false          -- UV_NAMED_PIPE with ipc = 1 (reads use recvmsg)
   reading : Bool := false      -- UV_HANDLE_READING
   readEof : Bool := false      -- UV_HANDLE_READ_EOF
   readPartial : Bool := false  -- UV_HANDLE_READ_PARTIAL
@@ -164,7 +165,9 @@ def readLoop (u : User) : Nat → St → St
       | .eof => streamEof u s (some id)                              -- 1110-1112
       | .data bs =>                                                  -- 1113-1155
         let s := callReadCb u s bs.length (some id) bs
-        if bs.length < sz then { s with readPartial := true }
+        -- "didn't fill the buffer, there is no more data": not for IPC pipes, where the kernel ends a
+        -- read at the boundary of a descriptor-carrying message (1150-1157)
+        if bs.length < sz && !s.ipc then { s with readPartial := true }
         else readLoop u count s
 
 /-- uv__read, stream.c:1025-1157 -/
